@@ -80,7 +80,18 @@ func EndLockLog() (leaked []string) {
 		if syscall.Fstat(e.fd, &st) != nil || st.Dev != e.dev || st.Ino != e.ino {
 			continue // closed (or the number was reused for another file)
 		}
-		if !flockProbe(fmt.Sprintf("/proc/self/fd/%d", e.fd), syscall.LOCK_EX) {
+		free := false
+		for try := 0; try < 4 && !free; try++ {
+			if try > 0 {
+				time.Sleep(20 * time.Millisecond) // a handle being closed by a goroutine of its own is not a leak
+				if syscall.Fstat(e.fd, &st) != nil || st.Dev != e.dev || st.Ino != e.ino {
+					free = true
+					break
+				}
+			}
+			free = flockProbe(fmt.Sprintf("/proc/self/fd/%d", e.fd), syscall.LOCK_EX)
+		}
+		if !free {
 			syscall.Flock(e.fd, syscall.LOCK_UN)
 			leaked = append(leaked, e.path)
 		}
